@@ -209,7 +209,77 @@ pub fn c03(ctx: &mut Ctx, acc: &mut Acc) -> i32 {
     }
     acc.add("histories", histories.len() as u64);
     let _ = OUTCOME_CLASSES;
+    if ctx.shard == 0 && !ctx.only_fresh() {
+        skipped_chunks(acc);
+    }
     0
+}
+
+/// An added field whose type is itself a derived record: a reader from before the addition skips its chunk unread.
+/// What follows the record in the stream must still read as written.  Three cases: the skipped record has no names
+/// in its header (control), has a removed-field name and the same record type follows (the name is then cited by id),
+/// and the same with the sibling *before* the record (control).
+fn skipped_chunks(acc: &mut Acc) {
+    use desert::BinaryCodec;
+    #[derive(BinaryCodec, Debug, PartialEq, Clone)]
+    #[evolution(FieldRemoved("gone"))]
+    struct InnerNamed {
+        a: u8,
+    }
+    #[derive(BinaryCodec, Debug, PartialEq, Clone)]
+    #[evolution(FieldAdded("b", 0u8))]
+    struct InnerPlain {
+        a: u8,
+        b: u8,
+    }
+    #[derive(BinaryCodec, Debug, PartialEq, Clone)]
+    struct OuterOld {
+        x: u8,
+    }
+    #[derive(BinaryCodec, Debug, PartialEq, Clone)]
+    #[evolution(FieldAdded("n", InnerNamed { a: 0 }))]
+    struct OuterNamed {
+        x: u8,
+        n: InnerNamed,
+    }
+    #[derive(BinaryCodec, Debug, PartialEq, Clone)]
+    #[evolution(FieldAdded("n", InnerPlain { a: 0, b: 0 }))]
+    struct OuterPlain {
+        x: u8,
+        n: InnerPlain,
+    }
+    fn run<W: desert::BinarySerializer, R: desert::BinaryDeserializer + PartialEq + std::fmt::Debug>(
+        acc: &mut Acc,
+        what: &str,
+        written: &W,
+        want: &R,
+    ) {
+        acc.case(Some(refmodel::rng::fnv64_str(what)));
+        let (r, _) = sbase::monitored(None, || {
+            let bytes = desert::serialize_to_byte_vec(written).map_err(|e| sbase::classify(&e))?;
+            let back: R = desert::deserialize(&bytes).map_err(|e| sbase::classify(&e))?;
+            Ok((bytes, back == *want, format!("{back:?}")))
+        });
+        match r {
+            Call::Ok((_, true, _)) => acc.count(&format!("skipped_chunk:{what}:as_documented")),
+            Call::Ok((bytes, false, got)) => acc.violation(
+                format!("C03|skipped_chunk|{what}|silently_different_value"),
+                J::obj().with("check", J::s("C03")).with("mode", J::s("content")).with("what", J::s(what)).with("hex", J::s(refmodel::hex(&bytes))).with("got", J::s(got)).with("documented", J::s(format!("{want:?}"))),
+            ),
+            other => acc.violation(
+                format!("C03|skipped_chunk|{what}|{}", other.class()),
+                J::obj().with("check", J::s("C03")).with("mode", J::s("content")).with("what", J::s(what)).with("got", J::s(other.class())).with("documented", J::s(format!("{want:?}"))),
+            ),
+        }
+    }
+    let old = OuterOld { x: 9 };
+    // control: nothing in the skipped chunk that the string table would need
+    run(acc, "nested_record_without_header_names_then_sibling", &(OuterPlain { x: 9, n: InnerPlain { a: 1, b: 2 } }, InnerPlain { a: 3, b: 4 }), &(old.clone(), InnerPlain { a: 3, b: 4 }));
+    // control: the sibling comes first, the skipped record cites the name
+    run(acc, "sibling_then_nested_record_with_header_name", &(InnerNamed { a: 3 }, OuterNamed { x: 9, n: InnerNamed { a: 1 } }), &(InnerNamed { a: 3 }, old.clone()));
+    // the skipped chunk introduces the name, the sibling cites it
+    run(acc, "nested_record_with_header_name_then_sibling", &(OuterNamed { x: 9, n: InnerNamed { a: 1 } }, InnerNamed { a: 3 }), &(old.clone(), InnerNamed { a: 3 }));
+    run(acc, "two_records_each_skipping_a_header_name", &vec![OuterNamed { x: 9, n: InnerNamed { a: 1 } }, OuterNamed { x: 9, n: InnerNamed { a: 2 } }], &vec![old.clone(), old.clone()]);
 }
 
 fn got_render(c: &Call<Val>) -> String {
